@@ -15,7 +15,9 @@ Import ListNotations.
 Open Scope N_scope.
 
 Record log := mkLog { l_idx : N; l_addr : N; l_body : N }.
-Record tx := mkTx { t_idx : N; t_hash : N; t_status : N; t_logs : list log }.
+(* t_traces: the body ids of tx.TraceActions in order (traces() numbers them
+   0, 1, ... by position, so the position is the index) *)
+Record tx := mkTx { t_idx : N; t_hash : N; t_status : N; t_logs : list log; t_traces : list N }.
 Record blk := mkBlk { b_num : N; b_hash : N; b_time : N; b_txs : list tx }.
 
 Definition idxs (ls : list log) : list N := map l_idx ls.
@@ -28,7 +30,7 @@ Definition logs_add_all (ls new : list log) : list log := fold_left logs_add new
 
 (* Block.Tx(idx) followed by an update of that transaction: the first
    transaction with this index, else a new one appended at the end *)
-Definition new_tx (i : N) : tx := mkTx i 0 0 [].
+Definition new_tx (i : N) : tx := mkTx i 0 0 [] [].
 Fixpoint txs_apply (i : N) (f : tx -> tx) (l : list tx) : list tx :=
   match l with
   | [] => [f (new_tx i)]
@@ -38,30 +40,43 @@ Fixpoint txs_apply (i : N) (f : tx -> tx) (l : list tx) : list tx :=
 Definition find_tx (i : N) (l : list tx) : option tx := find (fun t => t_idx t =? i) l.
 Definition logs_of (b : blk) (i : N) : list log :=
   match find_tx i (b_txs b) with Some t => t_logs t | None => [] end.
+Definition traces_of (b : blk) (i : N) : list N :=
+  match find_tx i (b_txs b) with Some t => t_traces t | None => [] end.
 
 Inductive aop :=
 (* logs(): one (block, tx) group: header hash, tx hash, Logs.Add of each log *)
 | AGroup (bh : N) (i : N) (th : N) (ls : list log)
 (* receipts(): one receipt: header hash, tx hash, status, Logs REPLACED *)
-| AReceipt (bh : N) (i : N) (th : N) (st : N) (ls : list log).
+| AReceipt (bh : N) (i : N) (th : N) (st : N) (ls : list log)
+(* traces(): the traces of one transaction of a trace_block reply: header hash,
+   tx hash, TraceActions REPLACED by the reply's traces of that transaction
+   (as repaired by fixes/C08-traces-publish-complete.diff: the new slice is
+   published once it is complete) *)
+| ATraces (bh : N) (i : N) (th : N) (tas : list N).
 
 Definition a_step (b : blk) (op : aop) : blk :=
   match op with
   | AGroup bh i th ls =>
       mkBlk (b_num b) bh (b_time b)
-            (txs_apply i (fun t => mkTx (t_idx t) th (t_status t) (logs_add_all (t_logs t) ls)) (b_txs b))
+            (txs_apply i (fun t => mkTx (t_idx t) th (t_status t) (logs_add_all (t_logs t) ls) (t_traces t)) (b_txs b))
   | AReceipt bh i th st ls =>
       mkBlk (b_num b) bh (b_time b)
-            (txs_apply i (fun t => mkTx (t_idx t) th st ls) (b_txs b))
+            (txs_apply i (fun t => mkTx (t_idx t) th st ls (t_traces t)) (b_txs b))
+  | ATraces bh i th tas =>
+      mkBlk (b_num b) bh (b_time b)
+            (txs_apply i (fun t => mkTx (t_idx t) th (t_status t) (t_logs t) tas) (b_txs b))
   end.
 
 Definition a_run (b : blk) (ops : list aop) : blk := fold_left a_step ops b.
 
 Definition op_tx (op : aop) : N :=
-  match op with AGroup _ i _ _ => i | AReceipt _ i _ _ _ => i end.
+  match op with AGroup _ i _ _ => i | AReceipt _ i _ _ _ => i | ATraces _ i _ _ => i end.
 Definition op_logs (op : aop) : list log :=
-  match op with AGroup _ _ _ ls => ls | AReceipt _ _ _ _ ls => ls end.
+  match op with AGroup _ _ _ ls => ls | AReceipt _ _ _ _ ls => ls | ATraces _ _ _ _ => [] end.
 Definition is_group (op : aop) : bool := match op with AGroup _ _ _ _ => true | _ => false end.
+Definition is_receipt (op : aop) : bool := match op with AReceipt _ _ _ _ _ => true | _ => false end.
+(* operations that leave every transaction's logs alone or only Add to them *)
+Definition adds_only (op : aop) : bool := negb (is_receipt op).
 
 (* well-formed block: no transaction index twice, no log index twice in a
    transaction *)
@@ -75,14 +90,22 @@ Definition tx_sem (i : N) (cur : list log) (op : aop) : list log :=
     match op with
     | AGroup _ _ _ ls => logs_add_all cur ls
     | AReceipt _ _ _ _ ls => ls
+    | ATraces _ _ _ _ => cur
     end
   else cur.
+
+(* ... and to its trace actions: the last trace attachment wins *)
+Definition trace_sem (i : N) (cur : list N) (op : aop) : list N :=
+  match op with
+  | ATraces _ j _ tas => if j =? i then tas else cur
+  | _ => cur
+  end.
 
 (* an operation is honest w.r.t. [full] (all logs of each transaction of this
    one unchanging block): it attaches only such logs, and a receipt carries
    all of them *)
 Definition honest (full : N -> list log) (op : aop) : Prop :=
-  incl (op_logs op) (full (op_tx op)) /\ (is_group op = false -> op_logs op = full (op_tx op)).
+  incl (op_logs op) (full (op_tx op)) /\ (is_receipt op = true -> op_logs op = full (op_tx op)).
 
 (* ---- the code BEFORE the repair (fixes/C08-receipts-block-lock.diff) ----
    receipts() did not take the block lock: `tx.Logs = make([]eth.Log, n)` and
@@ -91,7 +114,12 @@ Definition honest (full : N -> list log) (op : aop) : Prop :=
 Inductive legacy_op :=
 | LAtomic (op : aop)
 | LMake (i : N) (n : nat)
-| LCopy (i : N) (ls : list log).
+| LCopy (i : N) (ls : list log)
+(* traces() before fixes/C08-traces-publish-complete.diff: the new slice is
+   published EMPTY (`tx.TraceActions = make(n)`: n zero-valued actions) and
+   filled in place; a caller that already holds the block reads in between *)
+| LTMake (i : N) (n : nat)
+| LTFill (i : N) (tas : list N).
 
 Definition zero_log : log := mkLog 0 0 0.
 (* Go's copy(dst, src): min(len dst, len src) elements *)
@@ -103,9 +131,15 @@ Definition legacy_step (b : blk) (op : legacy_op) : blk :=
   | LAtomic op => a_step b op
   | LMake i n =>
       mkBlk (b_num b) (b_hash b) (b_time b)
-            (txs_apply i (fun t => mkTx (t_idx t) (t_hash t) (t_status t) (repeat zero_log n)) (b_txs b))
+            (txs_apply i (fun t => mkTx (t_idx t) (t_hash t) (t_status t) (repeat zero_log n) (t_traces t)) (b_txs b))
   | LCopy i ls =>
       mkBlk (b_num b) (b_hash b) (b_time b)
-            (txs_apply i (fun t => mkTx (t_idx t) (t_hash t) (t_status t) (copy_into (t_logs t) ls)) (b_txs b))
+            (txs_apply i (fun t => mkTx (t_idx t) (t_hash t) (t_status t) (copy_into (t_logs t) ls) (t_traces t)) (b_txs b))
+  | LTMake i n =>
+      mkBlk (b_num b) (b_hash b) (b_time b)
+            (txs_apply i (fun t => mkTx (t_idx t) (t_hash t) (t_status t) (t_logs t) (repeat 0 n)) (b_txs b))
+  | LTFill i tas =>
+      mkBlk (b_num b) (b_hash b) (b_time b)
+            (txs_apply i (fun t => mkTx (t_idx t) (t_hash t) (t_status t) (t_logs t) tas) (b_txs b))
   end.
 Definition legacy_run (b : blk) (ops : list legacy_op) : blk := fold_left legacy_step ops b.
